@@ -461,7 +461,7 @@ func (c c07) Generate(e *Env) ([]*Case, error) {
 		// 5. seeded samples: std entries, GOCACHE files, multi-fault sets at -p 4, mid-build faults.
 		nS := 3 - pi
 		if thorough {
-			nS = 30
+			nS = 14
 		}
 		for i := 0; i < nS && len(snap.StdEnt) > 0; i++ {
 			r := snap.StdEnt[rng.Intn(len(snap.StdEnt))]
@@ -492,7 +492,7 @@ func (c c07) Generate(e *Env) ([]*Case, error) {
 			// put the same entry.
 			nC := 3
 			if thorough {
-				nC = 24
+				nC = 12
 			}
 			for i := 0; i < nC; i++ {
 				r := "example.test/p1/leaf|reflect|" + []string{"a", "d"}[rng.Intn(2)]
